@@ -56,6 +56,9 @@ def scenarios(pid, tier, rng):
             for d in (100, 300) if thorough else (100,):
                 scs.append({"loops": 1, "submitters": 1, "per": n, "body": "sleep", "sleep_ms": d, "join": True, "join_ms": 3000, "max": 16})
                 scs.append({"loops": 1, "submitters": 1, "per": n, "body": "recvwait", "sleep_ms": d, "join": True, "join_ms": 3000, "max": 16})
+            # worker creations that failed earlier must not have used up worker slots: exactly n slots, n - 1 failures before
+            scs.append({"loops": 1, "submitters": 1, "per": n, "body": "sleep", "sleep_ms": 100, "join": True, "join_ms": 3000, "max": n,
+                        "bad_spawns": n - 1})
     reps = 2 if thorough else 1
     out = []
     for r in range(reps):
